@@ -16,6 +16,8 @@ From Coq Require Import String.
 From Coq Require Import NArith List Bool.
 From Coq.Strings Require Import Byte.
 From V Require Import Base.Bytes Merkle.Merkle Merkle.MerkleProofs Witness.WitnessModel Witness.WitnessProofs Witness.WitnessTheorems.
+From Coq Require Import ZArith.
+From V Require Import gen.Witness Witness.WitnessGenTie.
 Import ListNotations.
 Local Open Scope N_scope.
 
@@ -266,3 +268,13 @@ Proof.
   cbv zeta. split; [vm_compute; reflexivity|]. split; [vm_compute; reflexivity|].
   repeat constructor.
 Qed.
+
+(* the three elementary guards of Update as witness.go has them today (translated on every run): candidate smaller
+   than the head held / same size / a consistency-proof node that is not hash-sized - are exactly the comparisons of
+   the model's update (sizes as N, hlen = 32), direction and constant included *)
+Theorem update_guards_as_in_source : forall (a b : N) (h : bytes),
+  (a <? b) = witness_stale_gen (Z.of_N a) (Z.of_N b) /\
+  (a =? b) = witness_same_size_gen (Z.of_N a) (Z.of_N b) /\
+  negb (sized_b 32 h) = witness_node_bad_len_gen (Z.of_nat (length h)).
+Proof. exact update_guards_meaning. Qed.
+Print Assumptions update_guards_as_in_source.
